@@ -21,15 +21,17 @@ theorem TableAt.copyOf {P : Params} {h h' : Heap} {ob nb lg num : Nat} (ht : Tab
 
 /-- copy constructor of a table owning block `ob` -/
 theorem copyCtor_spec (P : Params) (n0 : Nat) (S : Nat → Bool) (o : Table) (ob : Nat) (hb : o.entries = some ob)
-    (hSn : ∀ x, n0 ≤ x → S x = true) (ids : List Nat) :
-    TripleS n0 S (fun h => TableAt P h ob o.lgCur o.num ∧ h.ids = ids)
+    (hSn : ∀ x, n0 ≤ x → S x = true) (ids : List Nat) (h0 : Heap) :
+    TripleS n0 S (fun h => h = h0 ∧ TableAt P h ob o.lgCur o.num ∧ h.ids = ids)
       (copyCtor o)
       (fun t' h' => ∃ nb, n0 ≤ nb ∧ nb ≠ ob ∧ t' = { o with entries := some nb } ∧ TableAt P h' nb o.lgCur o.num ∧
-        TableAt P h' ob o.lgCur o.num ∧ h'.ids = nb :: ids) := by
+        TableAt P h' ob o.lgCur o.num ∧ h'.ids = nb :: ids ∧
+        (∀ b' lg' num', b' < nb → TableAt P h0 b' lg' num' → TableAt P h' b' lg' num')) := by
   obtain ⟨ent, lgCur, lgNom, rf, num, theta, theta0, isEmpty⟩ := o
   simp only at hb ⊢
   subst hb
-  intro h hn ⟨ht, hid⟩
+  intro h hn ⟨e0, ht, hid⟩
+  subst e0
   unfold copyCtor
   simp only
   have hSnb : S h.next = true := hSn _ hn
@@ -38,7 +40,8 @@ theorem copyCtor_spec (P : Params) (n0 : Nat) (S : Nat → Bool) (o : Table) (ob
   have hne : ob ≠ h.next := by have := ht.slots.lt; omega
   have loop := TripleS.loopUp (n0 := n0) (S := S)
     (fun k h' => HasCells h' ob (2 ^ lgCur) ∧ HasCells h' h.next (2 ^ lgCur) ∧
-      (∀ j, wordAt h' ob j = wordAt h ob j ∧ stAt h' ob j = stAt h ob j) ∧
+      ((∀ b' j, b' ≠ h.next → wordAt h' b' j = wordAt h b' j ∧ stAt h' b' j = stAt h b' j) ∧
+       (∀ b' m, b' ≠ h.next → HasCells h b' m → HasCells h' b' m)) ∧
       (∀ j, j < k → wordAt h' h.next j = wordAt h ob j ∧ SlotOK h' h.next j) ∧
       (∀ j, k ≤ j → j < 2 ^ lgCur → stAt h' h.next j = .raw) ∧ h'.ids = h.next :: ids ∧ h'.next = h.next + 1)
     (fun i => do
@@ -46,15 +49,21 @@ theorem copyCtor_spec (P : Params) (n0 : Nat) (S : Nat → Bool) (o : Table) (ob
       if k ≠ 0 then copyConstructEntry ob i h.next i
       else writeWord h.next i 0) (2 ^ lgCur) 0 ?_
   · apply SafeF.bind_triple loop (by omega)
-      ⟨hcells1 ob _ hne ht.slots.cells, hc1, fun j => hv1 ob j hne, fun j hj => by omega, fun j _ hj => hr1 j hj,
-       by rw [hid1, hid], hnx1⟩
-    intro _ h2 ⟨hco, hcn, hvo, hnew, _, hid2, hnx2⟩ _
+      ⟨hcells1 ob _ hne ht.slots.cells, hc1, ⟨fun b' j hb' => hv1 b' j hb', fun b' m hb' => hcells1 b' m hb'⟩,
+       fun j hj => by omega, fun j _ hj => hr1 j hj, by rw [hid1, hid], hnx1⟩
+    intro _ h2 ⟨hco, hcn, ⟨hvall, hcall⟩, hnew, _, hid2, hnx2⟩ _
+    have hvo : ∀ j, wordAt h2 ob j = wordAt h ob j ∧ stAt h2 ob j = stAt h ob j := fun j => hvall ob j hne
     simp only [Nat.zero_add] at hnew
     apply SafeF.pure
-    refine ⟨h.next, hn, fun e => hne e.symm, rfl, ?_, ?_, hid2⟩
+    refine ⟨h.next, hn, fun e => hne e.symm, rfl, ?_, ?_, hid2, ?_⟩
     · exact ht.copyOf (fun j hj => (hnew j hj).1) ⟨hcn, by omega, fun j hj => (hnew j hj).2⟩
     · exact ht.of_views hco (by have := ht.slots.lt; omega) (fun j => (hvo j).1) (fun j _ => Or.inl (hvo j).2)
-  · intro i _ hi h' _ ⟨hco, hcn, hvo, hnew, hraw, hid', hnx'⟩
+    · intro b' lg' num' hb' ht'
+      have hb'' : b' ≠ h.next := by omega
+      exact ht'.of_views (hcall b' _ hb'' ht'.slots.cells) (by have := ht'.slots.lt; omega)
+        (fun j => (hvall b' j hb'').1) (fun j _ => Or.inl (hvall b' j hb'').2)
+  · intro i _ hi h' _ ⟨hco, hcn, ⟨hvall, hcall⟩, hnew, hraw, hid', hnx'⟩
+    have hvo : ∀ j, wordAt h' ob j = wordAt h ob j ∧ stAt h' ob j = stAt h ob j := fun j => hvall ob j hne
     have hi' : i < 2 ^ lgCur := by omega
     apply vstep_readWord hco hi'
     have hso : SlotOK h ob i := ht.slots.ok i hi'
@@ -67,9 +76,12 @@ theorem copyCtor_spec (P : Params) (n0 : Nat) (S : Nat → Bool) (o : Table) (ob
         apply vstep_copyConstructEntry hco hi' (by rw [(hvo i).2]; exact hv) hcn hi' (hraw i (Nat.le_refl _) hi') hSnb
         intro h'' sb hw hs
         apply SafeF.pure
-        have hob : ∀ j, wordAt h'' ob j = wordAt h' ob j ∧ stAt h'' ob j = stAt h' ob j := fun j =>
-          ⟨sb.word ob j (fun x => hne x.1), sb.st ob j (fun x => hne x.1)⟩
-        refine ⟨sb.cells _ _ hco, sb.cells _ _ hcn, fun j => ⟨(hob j).1.trans (hvo j).1, (hob j).2.trans (hvo j).2⟩,
+        have hall' : (∀ b' j, b' ≠ h.next → wordAt h'' b' j = wordAt h b' j ∧ stAt h'' b' j = stAt h b' j) ∧
+            (∀ b' m, b' ≠ h.next → HasCells h b' m → HasCells h'' b' m) :=
+          ⟨fun b' j hb' => ⟨(sb.word b' j (fun x => hb' x.1)).trans (hvall b' j hb').1,
+                            (sb.st b' j (fun x => hb' x.1)).trans (hvall b' j hb').2⟩,
+           fun b' m hb' hc => sb.cells _ _ (hcall b' m hb' hc)⟩
+        refine ⟨sb.cells _ _ hco, sb.cells _ _ hcn, hall',
           ?_, ?_, by rw [sb.ids]; exact hid', by rw [sb.next]; exact hnx'⟩
         · intro j hj
           by_cases hji : j = i
@@ -88,9 +100,12 @@ theorem copyCtor_spec (P : Params) (n0 : Nat) (S : Nat → Bool) (o : Table) (ob
       apply vstep_writeWord 0 hcn hi' hSnb
       intro h'' sb hw hs
       apply SafeF.pure
-      have hob : ∀ j, wordAt h'' ob j = wordAt h' ob j ∧ stAt h'' ob j = stAt h' ob j := fun j =>
-        ⟨sb.word ob j (fun x => hne x.1), sb.st ob j (fun x => hne x.1)⟩
-      refine ⟨sb.cells _ _ hco, sb.cells _ _ hcn, fun j => ⟨(hob j).1.trans (hvo j).1, (hob j).2.trans (hvo j).2⟩,
+      have hall' : (∀ b' j, b' ≠ h.next → wordAt h'' b' j = wordAt h b' j ∧ stAt h'' b' j = stAt h b' j) ∧
+          (∀ b' m, b' ≠ h.next → HasCells h b' m → HasCells h'' b' m) :=
+        ⟨fun b' j hb' => ⟨(sb.word b' j (fun x => hb' x.1)).trans (hvall b' j hb').1,
+                          (sb.st b' j (fun x => hb' x.1)).trans (hvall b' j hb').2⟩,
+         fun b' m hb' hc => sb.cells _ _ (hcall b' m hb' hc)⟩
+      refine ⟨sb.cells _ _ hco, sb.cells _ _ hcn, hall',
         ?_, ?_, by rw [sb.ids]; exact hid', by rw [sb.next]; exact hnx'⟩
       · intro j hj
         by_cases hji : j = i
